@@ -1617,6 +1617,19 @@ def install_numpy_models(interp):
     register_model(np.all, n_reduce(lambda xs: And(*xs), True))
     register_model(np.mean, lambda interp, a, axis=None, **k: np_mean(interp, a, axis))
 
+    def sp_moment(interp, a, moment=1, axis=0, **kw):
+        # scipy.stats.moment of a 1-d sample: the central moment  mean((x - mean x)^k)
+        A = to_obj_array(a)
+        if A.ndim != 1 or not isinstance(moment, int):
+            raise Unsupported("scipy.stats.moment: 1-d samples and an integer order only")
+        mu = np_mean(interp, A)
+        return np_mean(interp, to_obj_array([functools.reduce(mul, [sub(x, mu)] * moment, 1) for x in A.tolist()]))
+    try:
+        import scipy.stats as _ss
+        register_model(_ss.moment, sp_moment)
+    except Exception:
+        pass
+
     def n_linspace(interp, start, stop, num=50, endpoint=True, retstep=False, dtype=None, **kw):
         n = concrete_value(num) if is_sym(num) else num
         if n is None:
